@@ -230,6 +230,9 @@ func genConfig(r *kernel.Rand, o GenOpts, nUE int) scn.Config {
 	}
 	c.GnbIDHex = hex.EncodeToString(gb)
 	nameLen := r.Pick(1, 2, 7, 20, r.Range(1, 150), 150)
+	if rl := r.Sub("long-name"); rl.Chance(1, 12) { // RANNodeName ::= PrintableString (SIZE(1..150, ...)): beyond the root
+		nameLen = rl.Pick(151, 152, 200, 255, 256, 300)
+	}
 	name := make([]byte, nameLen)
 	for i := range name {
 		name[i] = printableChars[r.Intn(len(printableChars))]
@@ -388,6 +391,9 @@ func genUE(r *kernel.Rand, o GenOpts, ord int) scn.UEParams {
 		p.SetupOpt = r.Intn(2) << 1                                           // UE-AMBR after the list
 		if o.TopLevelOpts && r.Chance(1, 4) {
 			p.SetupOpt |= 1 // RANPagingPriority before the list
+		}
+		if o.TopLevelOpts && r.Sub("top-nas-pdu").Chance(1, 5) {
+			p.SetupOpt |= 4 // a top-level NAS-PDU before the list
 		}
 	}
 	p.UEIP = fmt.Sprintf("%d.%d.%d.%d", r.Range(1, 223), r.Intn(256), r.Intn(256), r.Intn(256))
